@@ -2,6 +2,7 @@ import DoitModel.Proofs.CleanSpec
 import DoitModel.Proofs.CleanEffects
 import DoitModel.Proofs.CleanFuel
 import DoitModel.Proofs.CleanFrame
+import DoitModel.Proofs.CleanRmdir
 import DoitModel.Proofs.CleanMon
 /-! # C14 — clean acts on exactly the selected tasks, once, dependents first
 
@@ -113,6 +114,15 @@ theorem targets_order (ts : List Path) :
   have h4 := not_pathLe_of_prefix '/' d p hb
   rw [h4] at h3
   exact absurd h3 (by simp)
+
+/-- **files_before_dir** — the effect of `targets_order`: when `clean_targets` (no dry run) reaches a target
+    directory `d` whose whole content are target files of the same task, `d` is empty and is removed -/
+theorem files_before_dir (t : Name) (targets : List Path) (w : World) (evs : List Ev) (d : Path)
+    (hd : d ∈ targets) (hnf : d ∉ w.files)
+    (hfiles : ∀ q, q ∈ w.files → below d q = true → q ∈ targets)
+    (hdirs : ∀ q, q ∈ w.dirs → below d q = false) :
+    d ∉ (cleanTargets false t targets (w, evs)).1.dirs :=
+  cleanTargets_rmdir t targets (w, evs) d hd hnf hfiles hdirs
 
 /-- **dryrun_frame** — with `--dry-run` the command changes neither files, nor directories, nor the DB
     (whatever else is on the command line, `--forget` included) -/
